@@ -38,7 +38,7 @@ CHECK_DEADLOCK FALSE
 TRACE_CFG = 'CONSTANTS Dev = {}\nINIT TInit\nNEXT TNext\nCHECK_DEADLOCK FALSE\n'
 ROPTS = {'export': ['continuous', 'gf_split', 'replace_parens', 'quiet'],
          'tigerxml': ['continuous', 'gf_split', 'replace_parens', 'quiet'],
-         'brackets': ['gf_split', 'replace_parens', 'brackets_firstid', 'quiet'],
+         'brackets': ['gf_split', 'replace_parens', 'brackets_firstid', 'brackets_emptypos', 'quiet'],
          'discobrackets': ['gf_split', 'quiet']}
 
 
